@@ -1,6 +1,7 @@
 package main
 
 import (
+	"regexp"
 	"go/ast"
 	"go/token"
 	"go/types"
@@ -139,6 +140,7 @@ func clauseCalls(c *Ctx, rel string, cc *ast.CaseClause) []string {
 func runC03(c *Ctx) {
 	c03Aliasing(c)
 	c03Kill(c)
+	c03Keys(c)
 	opt := c.decl(compilerPkg, "Optimizer.OptimizeStatements")
 	kill := c.decl(compilerPkg, "getModifiedVariablesInStmt")
 	if opt == nil || kill == nil {
@@ -999,6 +1001,43 @@ func c03Kill(c *Ctx) {
 func asInstr(v ssa.Value) ssa.Instruction {
 	ins, _ := v.(ssa.Instruction)
 	return ins
+}
+
+// c03Keys: part of R9 - the text keys under which expressions are remembered identify the expression exactly.
+func c03Keys(c *Ctx) {
+	ek := c.fn(compilerPkg, "exprKey")
+	if ek == nil {
+		c.info("C03-R9", compilerPkg+"#no-exprKey", token.NoPos, "no expression-key function")
+		return
+	}
+	// exprKey and the package functions it calls (one level)
+	fns := map[*ssa.Function]bool{ek: true}
+	eachCall(ek, func(call ssa.CallInstruction) {
+		if sf := staticFn(call); sf != nil && sf.Pkg != nil && sf.Pkg.Pkg.Path() == modPath+"/"+compilerPkg {
+			fns[sf] = true
+		}
+	})
+	n := 0
+	for fn := range fns {
+		eachCall(fn, func(call ssa.CallInstruction) {
+			args := call.Common().Args
+			switch callName(call) {
+			case "fmt.Sprintf":
+				f, ok := constString(args[0])
+				if !ok {
+					return
+				}
+				lossy := regexp.MustCompile(`%[-+ #0]*[0-9]*(\.[0-9]*)?[feEGF]`).MatchString(f) || regexp.MustCompile(`%[-+ #0]*[0-9]*\.[0-9]+[gv]`).MatchString(f)
+				n++
+				c.ob("C03-R9", fnKey(fn)+"#key-format-is-exact:"+f, call.Pos(), !lossy, "an expression key is built with the fixed-precision format "+f+": two different float constants that agree in the printed digits share one key, and common-subexpression elimination replaces one computation by the other's result")
+			case "strconv.FormatFloat":
+				n++
+				prec, ok := constInt(args[2])
+				c.ob("C03-R9", fnKey(fn)+"#key-format-is-exact:FormatFloat", call.Pos(), ok && prec == -1, "an expression key formats a float with a fixed precision: distinct constants can share one key")
+			}
+		})
+	}
+	c.Sites["C03-R9#key-formatting-calls"] = n
 }
 
 func nodeText(c *Ctx, n ast.Node) string {
